@@ -914,24 +914,104 @@ func runConnMgr(c *hx.Ctx) {
 		cw.Add(hx.App("ConnMgr_corr.CRehs", r.lit(), cmHsNames[x]), "rehandshake-row", true, map[string]any{"op": "tryRehandshake", "row": r, "result": cmHsNames[x], "situation": a.json()})
 	}
 
-	// 2. random check histories through the real doTrafficCheck
-	for i := 0; i < c.N; i++ {
-		lit, kind, nontrivial, desc := cmHistory(c, m, 30+c.Intn(30))
+	// 2. boundary corpus: busy with drop_inactive off, reload turning it on (and changing the timeout), quiet checks
+	// around the timeout - every variant of cmReloadScript
+	for v := 0; v < 48; v++ {
+		T, ds := cmReloadScript(c, v)
+		lit, kind, nontrivial, desc := cmHistory(c, m, 0, ds, T, "history-reload-corpus")
 		cw.Add(lit, kind, nontrivial, desc)
 	}
-	cw.Close("every abstract row of the three tables on a fresh concrete situation, then random histories of 30-59 periodic checks over 6 tunnels to 3 peers " +
-		"(traffic flags, clock advances up to the inactivity timeout, certificate expiry/blocklisting/authority removal, pki and config reloads, counter jumps); " +
+
+	// 3. random check histories through the real doTrafficCheck; one in five follows a (randomly chosen) reload script
+	for i := 0; i < c.N; i++ {
+		if c.Chance(0.2) {
+			T, ds := cmReloadScript(c, c.Intn(48))
+			lit, kind, nontrivial, desc := cmHistory(c, m, 0, ds, T, "history-reload")
+			cw.Add(lit, kind, nontrivial, desc)
+			continue
+		}
+		lit, kind, nontrivial, desc := cmHistory(c, m, 30+c.Intn(30), nil, 0, "history")
+		cw.Add(lit, kind, nontrivial, desc)
+	}
+	cw.Close("every abstract row of the three tables on a fresh concrete situation, 48 scripted histories (busy with drop_inactive off, reload turning it on / changing the timeout, quiet checks at idle < timeout, timeout-1ns, = timeout), then random histories of 30-59 periodic checks over 6 tunnels to 3 peers " +
+		"(traffic flags, clock advances up to the inactivity timeout, certificate expiry/blocklisting/authority removal, pki and config reloads, counter jumps); each check carries the harness's own idle time since it last injected traffic; " +
 		"non-trivial = history in which a tunnel is removed and another decision kind occurs; distinct by literal")
 }
 
-func cmHistory(c *hx.Ctx, m *nebula.VerifCMMaterial, steps int) (string, string, bool, any) {
+// cmDirective scripts one check of a history: which tunnel, how far the clock moves, the traffic injected before
+// it, and configuration reloads applied before it.
+type cmDirective struct {
+	ti      int
+	dt      time.Duration
+	in, out bool
+	dropi   *bool
+	timeout *time.Duration
+}
+
+var cmTimeouts = []time.Duration{30 * time.Second, 2 * time.Minute, 10 * time.Minute}
+
+// cmReloadScript: a tunnel is busy for longer than the inactivity timeout while drop_inactive is OFF; a reload
+// then turns drop_inactive on (and possibly changes the timeout); quiet checks follow at idle < timeout (must
+// stay), timeout-1ns (must stay) and = timeout (may be closed). Variants change the timeout at the reload
+// (longer, or shorter than the idle time already accumulated) and flip drop_inactive off and on again.
+func cmReloadScript(c *hx.Ctx, variant int) (time.Duration, []cmDirective) {
+	T := cmTimeouts[variant%3]
+	T2 := T
+	switch (variant / 3) % 4 {
+	case 1:
+		T2 = cmTimeouts[(variant+1)%3]
+	case 2:
+		T2 = cmTimeouts[(variant+2)%3]
+	}
+	on, off := true, false
+	var ds []cmDirective
+	for _, x := range []int{0, 5} { // the only tunnel of peer 0, the primary of peer 2
+		busy := 3 + (variant+x)%4
+		for i := 0; i < busy; i++ {
+			ds = append(ds, cmDirective{ti: x, dt: T/2 + time.Duration(c.Intn(1000)), in: true, out: c.Chance(0.5)})
+			if c.Chance(0.3) { // someone else is checked in between
+				ds = append(ds, cmDirective{ti: 1 + c.Intn(4), dt: time.Duration(c.Intn(3000)) * time.Millisecond, in: true, out: true})
+			}
+		}
+		first := 5 * time.Second // one check interval after the last traffic
+		if (variant/12)%2 == 1 {
+			first = 40 * time.Second // longer than the shortest timeout: a legitimate close if the new timeout is 30s
+		}
+		d := cmDirective{ti: x, dt: first, dropi: &on}
+		if T2 != T {
+			t2 := T2
+			d.timeout = &t2
+		}
+		ds = append(ds, d)
+		if (variant/24)%2 == 1 {
+			ds = append(ds, cmDirective{ti: x, dt: 0, dropi: &off}, cmDirective{ti: x, dt: 0, dropi: &on})
+		}
+		if T2 > first+time.Nanosecond {
+			ds = append(ds, cmDirective{ti: x, dt: T2 - first - time.Nanosecond}, cmDirective{ti: x, dt: time.Nanosecond})
+		}
+		ds = append(ds, cmDirective{ti: x, dt: time.Second}, cmDirective{ti: x, dt: 0, dropi: &off})
+	}
+	return T, ds
+}
+
+// cmHistory runs one history through the real doTrafficCheck. script == nil: `steps` random checks with random
+// environment changes; otherwise the scripted checks on a quiet environment (no certificate / counter events).
+func cmHistory(c *hx.Ctx, m *nebula.VerifCMMaterial, steps int, script []cmDirective, scriptT time.Duration, kindLabel string) (string, string, bool, any) {
+	scripted := script != nil
+	rnd := func(p float64) bool { return !scripted && c.Chance(p) }
+	if scripted {
+		steps = len(script)
+	}
 	myAddr := netip.MustParseAddr("10.1.128.7")
 	if c.Chance(0.2) {
 		myAddr = netip.MustParseAddr("fd00:1::7")
 	}
-	timeouts := []time.Duration{30 * time.Second, 2 * time.Minute, 10 * time.Minute}
+	timeouts := cmTimeouts
 	cfg := nebula.VerifCMConfig{CheckIntervalS: 5, PendingIntervalS: 10, InactivityTimeout: timeouts[c.Intn(3)], DropInactive: c.Chance(0.6),
 		DisconnectInvalid: c.Chance(0.6), PunchAll: c.Chance(0.5)}
+	if scripted {
+		cfg.InactivityTimeout, cfg.DropInactive = scriptT, false
+	}
 	w := nebula.VerifCMNewWorld(m, myAddr, cfg, c.Chance(0.3))
 	myNets := []netip.Prefix{netip.MustParsePrefix("10.1.128.7/16")}
 	local := cmLocal{V1: 0, V2: 0, Initiating: 1 + c.Intn(2)}
@@ -978,10 +1058,13 @@ func cmHistory(c *hx.Ctx, m *nebula.VerifCMMaterial, steps int) (string, string,
 					ver = 2
 				}
 				ca := c.Intn(2)
-				if c.Chance(0.15) {
+				if rnd(0.15) {
 					ca = 2
 				}
 				na := nas[c.Intn(4)]
+				if scripted {
+					na = 2 * time.Hour
+				}
 				if ca == 2 {
 					na = min(na, cmCALife[2])
 				}
@@ -1014,6 +1097,12 @@ func cmHistory(c *hx.Ctx, m *nebula.VerifCMMaterial, steps int) (string, string,
 
 	now := cmBase.Add(time.Duration(c.Intn(30)) * time.Second)
 	start := now
+	// this harness's OWN record of when it last injected traffic into each tunnel (never read from HostInfo):
+	// the tunnels are created at `start`
+	lastTraffic := make([]time.Time, len(tuns))
+	for i := range lastTraffic {
+		lastTraffic[i] = start
+	}
 	var stepLits []string
 	var stepDescs []any
 	removed, kinds := 0, map[string]bool{}
@@ -1022,40 +1111,53 @@ func cmHistory(c *hx.Ctx, m *nebula.VerifCMMaterial, steps int) (string, string,
 		for _, x := range tuns {
 			anyKnown = anyKnown || w.Pre(x.h).Known
 		}
-		if !anyKnown && sIdx > 0 && c.Chance(0.7) {
+		if !anyKnown && sIdx > 0 && rnd(0.7) {
 			break // every tunnel is gone; a few more checks of dead tunnels at most
 		}
 		ti := c.Intn(len(tuns))
 		for try := 0; try < 3 && !w.Pre(tuns[ti].h).Known && c.Chance(0.8); try++ {
 			ti = c.Intn(len(tuns)) // mostly tunnels still in the hostmap
 		}
+		var dir cmDirective
+		if scripted {
+			dir = script[sIdx]
+			ti = dir.ti
+		}
 		t := tuns[ti]
 		// environment changes before this check
 		var changes []string
-		if c.Chance(0.08) {
+		if dir.dropi != nil {
+			cfg.DropInactive = *dir.dropi
+			changes = append(changes, fmt.Sprintf("drop_inactive=%v", cfg.DropInactive))
+		}
+		if dir.timeout != nil {
+			cfg.InactivityTimeout = *dir.timeout
+			changes = append(changes, fmt.Sprintf("inactivity_timeout=%s", cfg.InactivityTimeout))
+		}
+		if rnd(0.08) {
 			cfg.DisconnectInvalid = !cfg.DisconnectInvalid
 			changes = append(changes, fmt.Sprintf("disconnect_invalid=%v", cfg.DisconnectInvalid))
 		}
-		if c.Chance(0.08) {
+		if rnd(0.08) {
 			cfg.DropInactive = !cfg.DropInactive
 			changes = append(changes, fmt.Sprintf("drop_inactive=%v", cfg.DropInactive))
 		}
-		if c.Chance(0.05) {
+		if rnd(0.05) {
 			cfg.InactivityTimeout = timeouts[c.Intn(3)]
 			changes = append(changes, fmt.Sprintf("inactivity_timeout=%s", cfg.InactivityTimeout))
 		}
 		w.Reconfigure(cfg)
-		if c.Chance(0.04) && t.pc != nil {
+		if rnd(0.04) && t.pc != nil {
 			blocked[t.pc.Fingerprint] = !blocked[t.pc.Fingerprint]
 			setPool()
 			changes = append(changes, fmt.Sprintf("blocklist[tunnel %d]=%v", ti, blocked[t.pc.Fingerprint]))
 		}
-		if c.Chance(0.05) {
+		if rnd(0.05) {
 			pool = [][]int{{0, 1, 2}, {0, 1}, {1, 2}, {0, 2}, {0}}[c.Intn(5)]
 			setPool()
 			changes = append(changes, fmt.Sprintf("ca_pool=%v", pool))
 		}
-		if c.Chance(0.1) {
+		if rnd(0.1) {
 			switch c.Intn(5) {
 			case 0:
 				local.V1 = c.Intn(3) - 1
@@ -1071,7 +1173,7 @@ func cmHistory(c *hx.Ctx, m *nebula.VerifCMMaterial, steps int) (string, string,
 			setLocal()
 			changes = append(changes, fmt.Sprintf("own certificates=%+v", local))
 		}
-		if c.Chance(0.08) {
+		if rnd(0.08) {
 			v := uint64(nebula.VerifCMRehandshakeAfterMessages) + uint64(c.Intn(1000))
 			if c.Chance(0.25) {
 				v = uint64(nebula.VerifCMRejectAfterMessages) + uint64(c.Intn(1000))
@@ -1097,15 +1199,22 @@ func cmHistory(c *hx.Ctx, m *nebula.VerifCMMaterial, steps int) (string, string,
 		default:
 			dt = time.Duration(c.Intn(10_000)) * time.Millisecond
 		}
-		now = now.Add(dt)
 		// traffic since the previous check
 		in, out := c.Chance(0.6), c.Chance(0.5)
+		if scripted {
+			dt, in, out = dir.dt, dir.in, dir.out
+		}
+		now = now.Add(dt)
 		if in {
 			w.In(t.h)
 		}
 		if out {
 			w.Out(t.h)
 		}
+		if in || out {
+			lastTraffic[ti] = now
+		}
+		trueIdle := now.Sub(lastTraffic[ti])
 		// abstract description of the situation, from what this harness itself set up
 		cs := cmCertNone
 		if t.pc != nil {
@@ -1156,7 +1265,7 @@ func cmHistory(c *hx.Ctx, m *nebula.VerifCMMaterial, steps int) (string, string,
 			cmOptN(pre.LastUsedZero, int64(pre.LastUsed.Sub(start))))
 		obLit := hx.App("mkOb", hx.Bool(pre.Known && !o.KnownAfter), hx.Bool(o.ClosePkts > 0), hx.Bool(o.TestPkts > 0), hx.Bool(o.PendingAfter),
 			cmTimerNames[timer], hx.Bool(o.PrimaryAfter), cmHsNames[o.Handshake], hx.Bool(o.InAfter), hx.Bool(o.OutAfter))
-		stepLits = append(stepLits, hx.Tuple(hx.N(uint64(ti)), ev, preLit, obLit))
+		stepLits = append(stepLits, hx.Tuple(hx.N(uint64(ti)), ev, preLit, obLit, hx.N(uint64(trueIdle))))
 		if pre.Known && !o.KnownAfter {
 			removed++
 		}
@@ -1169,7 +1278,7 @@ func cmHistory(c *hx.Ctx, m *nebula.VerifCMMaterial, steps int) (string, string,
 			kinds["swap"] = true
 		}
 		stepDescs = append(stepDescs, map[string]any{"step": sIdx, "tunnel": ti, "changes": changes, "dt_ns": int64(dt), "now_ns_after_start": int64(now.Sub(start)),
-			"in": in, "out": out, "cert": cmCertNames[cs], "disconnect_invalid": cfg.DisconnectInvalid, "drop_inactive": cfg.DropInactive,
+			"in": in, "out": out, "true_idle_ns": int64(trueIdle), "cert": cmCertNames[cs], "disconnect_invalid": cfg.DisconnectInvalid, "drop_inactive": cfg.DropInactive,
 			"inactivity_timeout_ns": int64(cfg.InactivityTimeout), "counter": fmt.Sprint(ctr), "counter_class": ctrName,
 			"own_cert": map[string]bool{"loaded": lc, "same_signature": se, "peer_version_higher_and_held": up, "below_initiating_version": bi},
 			"before":   map[string]any{"in_hostmap": pre.Known, "primary": pre.Primary, "in": pre.In, "out": pre.Out, "pending_deletion": pre.PendingDeletion, "last_used_zero": pre.LastUsedZero, "last_used_ns_after_start": int64(pre.LastUsed.Sub(start))},
@@ -1177,5 +1286,5 @@ func cmHistory(c *hx.Ctx, m *nebula.VerifCMMaterial, steps int) (string, string,
 				"timer": cmTimerNames[timer], "primary_after": o.PrimaryAfter, "handshake": cmHsNames[o.Handshake]}})
 	}
 	lit := hx.App("ConnMgr_corr.CHist", hx.List(tunLits), hx.List(order), hx.List(stepLits))
-	return lit, "history", removed > 0 && len(kinds) > 0, map[string]any{"op": "history", "my_addr": myAddr.String(), "tunnels": tunDescs, "steps": stepDescs}
+	return lit, kindLabel, (removed > 0 && len(kinds) > 0) || scripted, map[string]any{"op": kindLabel, "my_addr": myAddr.String(), "tunnels": tunDescs, "steps": stepDescs}
 }
